@@ -165,6 +165,19 @@ def setup(tier, lark_module=None, shipped_module=None):
     except Exception as e:
         S["load_failures"].append((f"C16:load:shipped:{type(e).__name__}", f"measured._parser at {S['parser_path']} cannot be imported/deserialized: {type(e).__name__}: {str(e)[:300]}"))
     S["fresh"], S["shipped"] = fresh, shipped
+    # the same two artefacts loaded with the one load-time option that changes the trees they build
+    # (propagate_positions: every node carries the span of text it covers)
+    S["fresh_pos"] = S["shipped_pos"] = None
+    if fresh is not None and shipped is not None:
+        try:
+            p2 = lark.Lark(
+                text, parser="lalr", start=list(STARTS), lexer="contextual", debug=False, keep_all_tokens=False,
+                regex=False, propagate_positions=True, maybe_placeholders=False, use_bytes=False,
+            )
+            S["fresh_pos"] = _Side("grammar+positions", p2, lark.exceptions.LarkError, la.Shift, la.Reduce)
+            S["shipped_pos"] = _Side("shipped+positions", mod.Parser(propagate_positions=True), mod.LarkError, mod.Shift, mod.Reduce)
+        except Exception as e:
+            S["load_failures"].append((f"C16:load:with-positions:{type(e).__name__}", f"the parsers cannot be loaded with propagate_positions=True: {type(e).__name__}: {str(e)[:300]}"))
     S["grammar_text"] = text
     S["struct"] = None
     if fresh is None or shipped is None:
@@ -546,7 +559,13 @@ def structural() -> core.Outcome:
 
 def _norm(t):
     if hasattr(t, "children"):
-        return ("T", str(t.data), tuple(_norm(c) for c in t.children))
+        # the span a parser loaded with propagate_positions=True records on the node (all None
+        # for the default load, which records nothing)
+        meta = getattr(t, "_meta", None)
+        span = tuple(getattr(meta, k, None) for k in ("start_pos", "end_pos", "line", "column", "end_line", "end_column")) if meta is not None else None
+        if span is not None and all(v is None for v in span):
+            span = None
+        return ("T", str(t.data), tuple(_norm(c) for c in t.children), span)
     if hasattr(t, "type"):
         # where the token was found is part of the tree: ParseError positions and anything a
         # caller derives from token.line / token.column come from the same counters
@@ -615,6 +634,8 @@ def _first_diff(a, b):
             d = _first_diff(x, y)
             if d:
                 return d
+        if a[3:] != b[3:]:
+            return a[1], "node-span"
         return None
     if a[0] == "t":
         if a[1] != b[1]:
@@ -673,6 +694,15 @@ def check_text(text):
                 f"C16:diff:tree:{d[1]}:{d[0]}",
                 f"{text!r} as {start}: both accept, trees first differ at {d[0]} ({d[1]}): grammar {a[1]!r} vs _parser.py {b[1]!r}"[:900],
             ))
+        elif a[0] == "A" and S.get("fresh_pos") is not None and S.get("shipped_pos") is not None:
+            a2, b2 = _parse(S["fresh_pos"], text, start), _parse(S["shipped_pos"], text, start)
+            classes.append(f"{start}:accept:compared-with-positions")
+            if a2[0] != b2[0] or (a2[0] == "A" and a2[1] != b2[1]):
+                d = (_first_diff(a2[1], b2[1]) if a2[0] == b2[0] == "A" else None) or ("?", "?")
+                fails.append((
+                    f"C16:diff:tree-with-positions:{d[1]}:{d[0]}",
+                    f"{text!r} as {start}, both loaded with propagate_positions=True: grammar {a2[:2]!r} vs _parser.py {b2[:2]!r}"[:900],
+                ))
     return fails, (";".join(keys) if keys else None), classes
 
 
